@@ -55,3 +55,10 @@ check(
     "The harness does not own dask's scheduler: interleavings are sampled at task granularity (the C entry point holds the GIL). A data race inside one C call would need a schedule-owning tool; releasing the GIL in the wrapper is nevertheless caught by the mixed-shape batches (crash / differing result).",
     "DESIGN.md section 5 C07",
 )
+check(
+    "C19",
+    "exhaustive enumeration of short histories over a small alphabet plus Hypothesis-generated histories (appearing / disappearing / drifting / slot-swapping wave systems, random thresholds) checked against history invariants with thresholds recomputed independently; multi-site and end-to-end ptm1_track facets",
+    "All histories with 2 partitions x 2 steps (quick) and additionally 3x2 and 2x3 (thorough, ~10^7 histories) over 13 cell values are enumerated; thousands / tens of thousands of random histories up to 6 partitions x 12 steps; site independence by differential comparison with single-site runs. Exhaustive within the enumerated bounds, sampled beyond.",
+    "Trusts the independent re-derivation of the sea/swell thresholds from the documented formulas; carries within 1e-12 of a threshold are not judged; the 'unambiguous carry' clause follows the documented matching rule.",
+    "DESIGN.md section 5 C19",
+)
